@@ -86,6 +86,14 @@ def run(e: Engine, rep: Report):
              '(timestamp, id) pairs - removing pairs from a set of ids '
              'removes nothing)')
     q12(e, rep)
+    rep.rule('Q13', 'flush() dispatches one snapshot of the timetable: the '
+             'statement that takes the waiting entries out (re-binds / '
+             'clears self.queued) is not inside a loop that goes round '
+             'while entries are there - what arrives while flush is blocked '
+             'on a bounded pool are the messages it has just dispatched, '
+             're-queued with a new due time; a second round attempts them '
+             'before that time and flush() never returns')
+    q13(e, rep)
     rep.floor('Q2', 3, 'timetable writers')
 
 
@@ -1338,3 +1346,87 @@ def q11(e: Engine, rep: Report):
                   % (', '.join(' '.join(ast.unparse(v).split())
                                for v in vals)[:70], e.call_name(n)),
                   loc=n.loc(), reason='now = time.time()')
+
+
+# ---------------------------------------------------------------------- Q13
+def q13(e: Engine, rep: Report):
+    c = common.merged_class(e, QUEUE)
+    if 'flush' not in c.methods:
+        rep.error('anchor vanished: Queue.flush')
+        return
+    todo, seen = [(c.methods['flush'], [])], set()
+    n = 0
+    while todo:
+        m, outer = todo.pop()
+        if m.qname in seen:
+            continue
+        seen.add(m.qname)
+        rep.functions.add(m.qname)
+
+        def visit(ch, loops, m=m):
+            nonlocal n
+            if isinstance(ch, (ast.FunctionDef, ast.Lambda,
+                               ast.AsyncFunctionDef)) and ch is not m.node:
+                return
+            takes = False
+            if isinstance(ch, ast.Assign) and any(
+                    ast.unparse(el) == 'self.queued' for t in ch.targets
+                    for el in (t.elts if isinstance(t, (ast.Tuple, ast.List))
+                               else [t])):
+                takes = True
+            if isinstance(ch, ast.Expr) and \
+                    isinstance(ch.value, ast.Call) and \
+                    isinstance(ch.value.func, ast.Attribute) and \
+                    ch.value.func.attr == 'clear' and \
+                    ast.unparse(ch.value.func.value) == 'self.queued':
+                takes = True
+            if isinstance(ch, ast.Delete) and any(
+                    'self.queued' in ast.unparse(t) and
+                    'queued_ids' not in ast.unparse(t)
+                    for t in ch.targets):
+                takes = True
+            if takes:
+                n += 1
+                rep.evaluations += 1
+                lp = [l for l in loops if isinstance(l, ast.While) or
+                      'self.queued' in ast.unparse(l.iter)]
+                rep.check(not lp, 'Q13', m.qname,
+                          '`%s` takes one snapshot'
+                          % ' '.join(ast.unparse(ch).split())[:40],
+                          'flush() takes the waiting entries out inside '
+                          '`%s`: it goes round again for whatever is on '
+                          'the timetable when a round ends - with a '
+                          'bounded store pool those are the messages of '
+                          'the round before, failed and re-queued with '
+                          'the due time the backoff chose; they are '
+                          'attempted at once, again and again, and '
+                          'flush() (which holds the timetable lock) does '
+                          'not return while the relay keeps deferring'
+                          % (' '.join(ast.unparse(lp[0]).split(
+                              ))[:40] if lp else ''),
+                          loc=m.loc(ch), reason='not inside a loop over '
+                          'the live timetable')
+            if isinstance(ch, ast.Call) and \
+                    isinstance(ch.func, ast.Attribute) and \
+                    isinstance(ch.func.value, ast.Name) and \
+                    ch.func.value.id == 'self' and \
+                    ch.func.attr in c.methods and \
+                    ch.func.attr.startswith('_') and \
+                    ch.func.attr not in ('_pool_spawn', '_dequeue'):
+                todo.append((c.methods[ch.func.attr], list(loops)))
+            if isinstance(ch, ast.For):
+                visit(ch.target, loops)
+                visit(ch.iter, loops)
+                for b in ch.body + ch.orelse:
+                    visit(b, loops + [ch])
+                return
+            if isinstance(ch, ast.While):
+                for b in [ch.test] + ch.body + ch.orelse:
+                    visit(b, loops + [ch])
+                return
+            for sub in ast.iter_child_nodes(ch):
+                visit(sub, loops)
+        visit(m.node, list(outer))
+    if n < 1:
+        rep.error('anchor vanished: flush() takes the entries out of '
+                  'self.queued')
